@@ -1,0 +1,21 @@
+//go:build verif
+
+package rp
+
+import (
+	jose "github.com/go-jose/go-jose/v4"
+
+	"github.com/zitadel/oidc/v3/pkg/oidc"
+)
+
+// VerifC13Inspect reports, under the key set's mutex, whether a download is in
+// flight and a copy of the cached keys. Verification harness only (C13).
+func VerifC13Inspect(ks oidc.KeySet) (inflight bool, cached []jose.JSONWebKey, ok bool) {
+	r, ok := ks.(*remoteKeySet)
+	if !ok {
+		return false, nil, false
+	}
+	r.mu.Lock()
+	defer r.mu.Unlock()
+	return r.inflight != nil, append([]jose.JSONWebKey(nil), r.cachedKeys...), true
+}
